@@ -94,7 +94,6 @@ Proof.
   split; [apply parse_enc; assumption|]. repeat split; try assumption.
   - apply enc_sets; assumption.
   - intros e fuel r. apply bytes_of_tree; assumption.
-  - intros d. vm_compute. reflexivity.
 Qed.
 Print Assumptions C03_conforms_partial.
 
